@@ -356,28 +356,14 @@ impl TimeZone {
         // possibleEpochNsAfter is not empty (i.e., isoDateTimeAfter represents the first local time
         // after the transition).
 
-        // Similar to disambiguation, we need to first get the possible epoch for the current start of day +
-        // 3 hours, then get the timestamp for the transition epoch.
-        let after = IsoDateTime::new_unchecked(
-            *iso_date,
-            IsoTime {
-                hour: 3,
-                ..Default::default()
-            },
-        );
-        let Some(after_epoch) = self
-            .get_possible_epoch_ns_for(after, provider)?
-            .into_iter()
-            .next()
-        else {
-            return Err(TemporalError::r#type()
-                .with_message("Could not determine the start of day for the provided date."));
-        };
-
+        // The local midnight is skipped. A UTC offset is shorter than a day, so one day after the
+        // date-time read as a UTC instant the offset that follows the transition is in force; the
+        // transition that started it is the first instant of the day.
+        let utc_ns = crate::iso::to_unchecked_epoch_nanoseconds(iso.date, &iso.time);
         let TimeZoneOffset {
             transition_epoch: Some(transition_epoch),
             ..
-        } = provider.get_named_tz_offset_nanoseconds(identifier, after_epoch.0)?
+        } = provider.get_named_tz_offset_nanoseconds(identifier, utc_ns + NS_IN_DAY)?
         else {
             return Err(TemporalError::r#type()
                 .with_message("Could not determine the start of day for the provided date."));
